@@ -1134,6 +1134,37 @@ def squery_wf(q):
     return True
 
 
+def optimizer_attribution(db, sql, model, impl):
+    """-> {"key", "opt_sql"} when the engines say: original text == model answer, optimized text == execute()'s answer
+    (as bags), and the two differ; else None"""
+    import sqlglot
+    from sqlglot import exp
+    from sqlglot.optimizer import optimize
+
+    if not (isinstance(model, dict) and isinstance(impl, dict)):
+        return None
+    try:
+        opt = optimize(sql, {"x": {"a": "INT", "b": "INT", "c": "TEXT"}}, leave_tables_isolated=True)
+        opt_sql = opt.sql()
+        e_orig, e_opt = engines().run(db, sql), engines().run(db, opt_sql)
+    except Exception:  # noqa
+        return None
+    bag = lambda rows: canon(sorted(Engines._norm([tuple(x) for x in rows]), key=sort_rows_key))
+    for name in ("sqlite", "duckdb"):
+        if e_orig[name][0] == "error" or e_opt[name][0] == "error":
+            return None
+        if bag(e_orig[name][1]) != bag(model["rows"]) or bag(e_opt[name][1]) != bag(impl["rows"]):
+            return None
+    if bag(model["rows"]) == bag(impl["rows"]):
+        return None
+
+    def where_skel(tree):
+        w = tree.find(exp.Where)
+        return sql_skeleton("SELECT 1 FROM t WHERE " + w.this.sql()) .split(" WHERE ", 1)[1] if w is not None else "none"
+
+    return {"key": "opt-where:" + where_skel(sqlglot.parse_one(sql)) + "=>" + where_skel(opt), "opt_sql": opt_sql}
+
+
 def correspond_plan(chk: Check) -> None:
     """plan model vs real Step.from_expression (DAG shape), exec model vs real execute() (exact sequence), and the
     reference Query.eval vs SQLite / DuckDB on well-formed queries"""
@@ -1185,6 +1216,18 @@ def correspond_plan(chk: Check) -> None:
             m = {"cols": m["cols"], "rows": Engines._norm([tuple(x) for x in m["rows"]])}
         chk.case(("plan", sql, rows), nontrivial=bool(rows), sample={"sql": sql, "rows": rows, "answer": r} if i % 211 == 0 else None)
         if canon(m) != canon(r):
+            # execute() = optimize() then plan + run.  If the reference engines, given the OPTIMIZED text, answer like
+            # execute() while on the original text they answer like the model, the optimizer changed the meaning: that is
+            # a C11 violation of the end-to-end statement (reported through the oracle path, matched against known
+            # findings), not a broken executor tie.  The executor comparison itself is unchanged.
+            att = optimizer_attribution(db, sql, m, r)
+            if att is not None:
+                chk.count("plan:optimizer-changed-semantics")
+                chk.report_violation(att["key"], f"{sql} over {db}: optimize() rewrites it to {att['opt_sql']} which SQLite/DuckDB answer "
+                                     f"like execute() ({r}); the original text gives {m}",
+                                     {"kind": "sql", "db": {k: rows_json(v) for k, v in db.items()}, "sql": sql,
+                                      "ordered": bool(q["order"]) and squery_wf(q), "which": ["sqlite", "duckdb"]})
+                continue
             exec_bad += 1
             chk.correspondence_broken("exec(plan q): model and execute() differ", {"sql": sql, "rows": rows, "model": m, "impl": r})
         if squery_wf(q):
